@@ -202,4 +202,93 @@ theorem lookupIn_sound (k : MapKind) (rs : List Region) (a : Nat) (p : Perm)
     simp only [Option.map_some, Option.some.injEq] at h
     exact ⟨reg, List.mem_of_getElem? hget?, h, rg, hr, h1, h2⟩
 
+/-! ## the `BTreeSet<&str>` model -/
+
+theorem mem_insertSorted {s x : String} {l : List String} (h : x ∈ insertSorted s l) :
+    x = s ∨ x ∈ l := by
+  induction l with
+  | nil => simp [insertSorted] at h; exact Or.inl h
+  | cons t rest ih =>
+    simp only [insertSorted] at h
+    split at h
+    · rcases List.mem_cons.mp h with h | h
+      · exact Or.inl h
+      · exact Or.inr h
+    · split at h
+      · exact Or.inr h
+      · rcases List.mem_cons.mp h with h | h
+        · exact Or.inr (h ▸ List.mem_cons_self)
+        · rcases ih h with h | h
+          · exact Or.inl h
+          · exact Or.inr (List.mem_cons_of_mem _ h)
+
+theorem mem_foldl_insertSorted {x : String} (l : List String) (acc : List String)
+    (h : x ∈ l.foldl (fun acc s => insertSorted s acc) acc) : x ∈ acc ∨ x ∈ l := by
+  induction l generalizing acc with
+  | nil => exact Or.inl h
+  | cons s rest ih =>
+    simp only [List.foldl_cons] at h
+    rcases ih _ h with h | h
+    · rcases mem_insertSorted h with h | h
+      · exact Or.inr (h ▸ List.mem_cons_self)
+      · exact Or.inl h
+    · exact Or.inr (List.mem_cons_of_mem _ h)
+
+theorem mem_btreeSet {x : String} {l : List String} (h : x ∈ btreeSet l) : x ∈ l := by
+  rcases mem_foldl_insertSorted l [] h with h | h
+  · cases h
+  · exact h
+
+theorem mem_insertSorted_self (s : String) (l : List String) : s ∈ insertSorted s l := by
+  induction l with
+  | nil => simp [insertSorted]
+  | cons t rest ih =>
+    simp only [insertSorted]
+    split
+    · exact List.mem_cons_self
+    · split
+      · rename_i h; rw [eq_of_beq h]; exact List.mem_cons_self
+      · exact List.mem_cons_of_mem _ ih
+
+theorem mem_insertSorted_of_mem {x s : String} {l : List String} (h : x ∈ l) :
+    x ∈ insertSorted s l := by
+  induction l with
+  | nil => cases h
+  | cons t rest ih =>
+    simp only [insertSorted]
+    split
+    · exact List.mem_cons_of_mem _ h
+    · split
+      · exact h
+      · rcases List.mem_cons.mp h with h | h
+        · exact h ▸ List.mem_cons_self
+        · exact List.mem_cons_of_mem _ (ih h)
+
+theorem insertSorted_sorted (s : String) (l : List String) (h : l.Pairwise (· < ·)) :
+    (insertSorted s l).Pairwise (· < ·) := by
+  induction l with
+  | nil => simp [insertSorted]
+  | cons t rest ih =>
+    have ht : ∀ {x}, x ∈ rest → t < x := fun hx => List.rel_of_pairwise_cons h hx
+    have hrest := List.Pairwise.of_cons h
+    simp only [insertSorted]
+    split
+    · rename_i hst
+      refine List.Pairwise.cons ?_ h
+      intro x hx
+      rcases List.mem_cons.mp hx with rfl | hx
+      · exact hst
+      · exact String.lt_trans hst (ht hx)
+    · split
+      · exact h
+      · rename_i hlt hne
+        refine List.Pairwise.cons ?_ (ih hrest)
+        intro x hx
+        rcases mem_insertSorted hx with rfl | hx
+        · apply String.not_le.mp
+          intro hle
+          have := String.le_antisymm hle (String.not_lt.mp hlt)
+          exact hne (by simp [this])
+        · exact ht hx
+
 end MdModel.BitFlip
